@@ -272,12 +272,235 @@ Definition ok_call (m : snet) (P : list name) (c : call) : bool :=
 Definition ok_epoch (e : epoch) : bool :=
   negb (wf_request (e_model e) (e_params e)) || forallb (ok_call (e_model e) (e_params e)) (e_calls e).
 
-(** one correspondence case: a single evaluation with the augmented net introspected (wave 1), or a
-    history of edits, objects and calls (wave 2) *)
-Inductive tcase := Single (c : case) | History (h : list epoch).
+(** ---- gradient_logpdf (wave 3) ----
+    ModelPrior.gradient_logpdf(x, stepsize): x.reshape((-1, dim)); for EVERY ROW ON ITS OWN
+    numgrad(self.logpdf, row, h=stepsize): the 3*dim stencil points row + s*h_d*e_d (s = -1, 0, 1), one
+    logpdf evaluation of them, zeros when some stencil value OF THAT ROW is -inf, else the central
+    differences (f[2] - f[0]) / (2*h); infinite / nan entries are then set to 0; a 0-d input, and a 1-d
+    input when dim > 1, is a single point whose answer is grads[0] (shape (dim,)); every other input
+    gives one gradient per row (shape (n, dim)).  Computed in binary64 (PrimFloat), as the code does;
+    the log density is a parameter of the model: a function of the point (row-wise, which is what
+    C08_matrix_rows says about the model of logpdf on a matrix). *)
+From Coq Require Import PrimFloat.
+
+Fixpoint take_rowA {A} (d : nat) (l : list A) : option (list A * list A) :=
+  match d with
+  | O => Some ([], l)
+  | S d' => match l with
+            | [] => None
+            | z :: r => match take_rowA d' r with Some (row, rest) => Some (z :: row, rest) | None => None end
+            end
+  end.
+
+Fixpoint rows_ofA {A} (fuel d : nat) (l : list A) : option (list (list A)) :=
+  match l with
+  | [] => Some []
+  | _ :: _ =>
+      match fuel with
+      | O => None
+      | S f => match take_rowA d l with
+               | Some (row, rest) => match rows_ofA f d rest with Some rs => Some (row :: rs) | None => None end
+               | None => None
+               end
+      end
+  end.
+
+Definition fpoint := list float.
+Definition logdens := fpoint -> option float.          (* None = not defined / not supplied *)
+
+(** h = 0.00001 if h is None *)
+Definition default_step : float := 0x1.4f8b588e368f1p-17%float.
+
+(** h.reshape(-1) broadcast against the dim coordinates: one stepsize, or one per dimension *)
+Definition expand_h (dim : nat) (h : list float) : option (list float) :=
+  match h with
+  | [a] => Some (repeat a dim)
+  | _ => if Nat.eqb (List.length h) dim then Some h else None
+  end.
+
+(** Xi.diagonal() + (i - 1) * h on row d of the tile: coordinate d moved by s * h_d *)
+Fixpoint shift_at (x : fpoint) (hs : list float) (d : nat) (s : float) : fpoint :=
+  match x, hs with
+  | xv :: xr, hv :: hr => match d with
+                          | O => PrimFloat.add xv (PrimFloat.mul s hv) :: xr
+                          | S d' => xv :: shift_at xr hr d' s
+                          end
+  | _, _ => x
+  end.
+
+Definition stencil_row (x : fpoint) (hs : list float) (s : float) : list fpoint :=
+  map (fun d => shift_at x hs d s) (seq 0 (List.length x)).
+
+(** the 3*dim evaluation points of numgrad for the point x *)
+Definition stencil_points (x : fpoint) (hs : list float) : list fpoint :=
+  stencil_row x hs (-1)%float ++ stencil_row x hs 0%float ++ stencil_row x hs 1%float.
+
+Definition is_neginf (f : float) : bool := PrimFloat.eqb f neg_infinity.
+
+Definition cdiff_f (f2 f0 h : float) : float := PrimFloat.div (PrimFloat.sub f2 f0) (PrimFloat.mul 2%float h).
+
+Fixpoint cdiffs (f2 f0 hs : list float) : list float :=
+  match f2, f0, hs with
+  | a :: r, b :: s, h :: t => cdiff_f a b h :: cdiffs r s t
+  | _, _, _ => []
+  end.
+
+(** the stencil values of the point x: (f[0], f[1], f[2]) *)
+Definition stencil_values (lp : logdens) (hs : list float) (x : fpoint) : option (list float * list float * list float) :=
+  match all_some (map lp (stencil_row x hs (-1)%float)), all_some (map lp (stencil_row x hs 0%float)),
+        all_some (map lp (stencil_row x hs 1%float)) with
+  | Some f0, Some f1, Some f2 => Some (f0, f1, f2)
+  | _, _, _ => None
+  end.
+
+(** elfi.methods.utils.numgrad(fn, x, h) with replace_neg_inf *)
+Definition numgrad (lp : logdens) (hs : list float) (x : fpoint) : option (list float) :=
+  match stencil_values lp hs x with
+  | Some (f0, f1, f2) =>
+      if existsb is_neginf (f0 ++ f1 ++ f2) then Some (repeat 0%float (List.length x))
+      else Some (cdiffs f2 f0 hs)
+  | None => None
+  end.
+
+(** grads[np.isinf(grads)] = 0; grads[np.isnan(grads)] = 0 *)
+Definition clean (g : float) : float := if is_infinity g || is_nan g then 0%float else g.
+
+(** the gradient row of ONE point: a function of the log density on that point's own stencil only *)
+Definition grad_point (lp : logdens) (hs : list float) (x : fpoint) : option (list float) :=
+  option_map (map clean) (numgrad lp hs x).
+
+Record gcall := {
+  g_step : option (list float);                (* stepsize: None, or the elements of asanyarray(stepsize).reshape(-1) *)
+  g_shape : list nat;                          (* shape of the array handed to gradient_logpdf *)
+  g_data : list float;                         (* its elements in C order *)
+  g_analytic : list (option float);            (* oracle: analytic derivative of the joint log density, entry by entry
+                                                  (C order), where the harness vouches for it; [] = none *)
+  g_impl : option (list nat * list float)      (* observed shape and elements of the answer, None = raised *)
+}.
+
+Definition grad_call (lp : logdens) (dim : nat) (c : gcall) : option (list nat * list float) :=
+  match expand_h dim (match g_step c with Some h => h | None => [default_step] end) with
+  | None => None
+  | Some hs =>
+      match rows_ofA (List.length (g_data c)) dim (g_data c) with
+      | None => None
+      | Some rows =>
+          match all_some (map (grad_point lp hs) rows) with
+          | None => None
+          | Some gs => if single_point_form dim (g_shape c)
+                       then match gs with g :: _ => Some ([dim], g) | [] => None end
+                       else Some ([List.length gs; dim], List.concat gs)
+          end
+      end
+  end.
+
+(** comparison of binary64 values: |a - b| <= tol * max(1, |b|); a nan never agrees with anything *)
+Definition fclose (tol a b : float) : bool :=
+  PrimFloat.leb (abs (PrimFloat.sub a b))
+                (PrimFloat.mul tol (if PrimFloat.ltb (abs b) 1%float then 1%float else abs b)).
+
+Fixpoint fclose_list (tol : float) (a b : list float) : bool :=
+  match a, b with
+  | [], [] => true
+  | x :: r, y :: s => fclose tol x y && fclose_list tol r s
+  | _, _ => false
+  end.
+
+Definition tol_stencil : float := 0x1.0c6f7a0b5ed8dp-20%float.      (* 1e-6 *)
+Definition tol_analytic : float := 0x1.0624dd2f1a9fcp-10%float.     (* 1e-3 *)
+
+Definition ganswer_close (a b : option (list nat * list float)) : bool :=
+  match a, b with
+  | Some (s, v), Some (t, w) => shape_eqb s t && fclose_list tol_stencil w v
+  | None, None => true
+  | _, _ => false
+  end.
+
+Definition agree_gcall (lp : logdens) (dim : nat) (c : gcall) : bool := ganswer_close (grad_call lp dim c) (g_impl c).
+
+(** an observed entry against the analytic derivative, where one is supplied *)
+Fixpoint analytic_ok (g : list float) (an : list (option float)) : bool :=
+  match g, an with
+  | x :: r, Some a :: s => fclose tol_analytic x a && analytic_ok r s
+  | _ :: r, None :: s => analytic_ok r s
+  | _, _ => true
+  end.
+
+(** the property on one row of the answer: the row is judged by the log density on ITS OWN stencil -
+    zero where that stencil reaches a point of zero density (the convention of the code for "no
+    derivative"), the central difference of the log density (and the analytic derivative where
+    supplied) where the log density is finite on the whole stencil; nothing is demanded where the log
+    density itself is nan / +inf (reported under the finding of pdf/logpdf) *)
+Definition row_ok (lp : logdens) (hs : list float) (x g : list float) (an : list (option float)) : bool :=
+  match stencil_values lp hs x with
+  | Some (f0, f1, f2) =>
+      let all := f0 ++ f1 ++ f2 in
+      if existsb is_neginf all then Nat.eqb (List.length g) (List.length x) && forallb (fun v => PrimFloat.eqb v 0%float) g
+      else if forallb is_finite all then fclose_list tol_stencil g (cdiffs f2 f0 hs) && analytic_ok g an
+      else Nat.eqb (List.length g) (List.length x)
+  | None => false
+  end.
+
+Fixpoint rows_ok (lp : logdens) (hs : list float) (rows grows : list (list float)) (ans : list (list (option float))) : bool :=
+  match rows, grows with
+  | [], [] => true
+  | x :: r, g :: s => row_ok lp hs x g (hd [] ans) && rows_ok lp hs r s (tl ans)
+  | _, _ => false
+  end.
+
+(** the property on one call: a proper input of n points is answered with n gradient rows of dim
+    entries (a single point given as scalar / vector: one row, no points axis), row i judged by the
+    log density around point i alone *)
+Definition ok_gcall (lp : logdens) (dim : nat) (c : gcall) : bool :=
+  match proper_form dim (g_shape c) with
+  | None => true
+  | Some (n, axis) =>
+      negb (Nat.eqb (List.length (g_data c)) (n * dim))
+      || match expand_h dim (match g_step c with Some h => h | None => [default_step] end),
+               rows_ofA (List.length (g_data c)) dim (g_data c), g_impl c with
+         | Some hs, Some rows, Some (sh, vs) =>
+             shape_eqb sh (if axis then [n; dim] else [dim])
+             && match rows_ofA (List.length vs) dim vs with
+                | Some grows =>
+                    rows_ok lp hs rows grows
+                            (match rows_ofA (List.length (g_analytic c)) dim (g_analytic c) with Some a => a | None => [] end)
+                | None => false
+                end
+         | None, _, _ => true                       (* stepsizes that fit neither form: outside the property *)
+         | _, _, _ => false
+         end
+  end.
+
+(** the log density as the harness supplies it: a table point -> value obtained from the
+    implementation's own logpdf, one evaluation per stencil of a single row *)
+Fixpoint fpoint_eqb (a b : fpoint) : bool :=
+  match a, b with
+  | [], [] => true
+  | x :: r, y :: s => PrimFloat.eqb x y && fpoint_eqb r s
+  | _, _ => false
+  end.
+
+Fixpoint table_lookup (t : list (fpoint * float)) (p : fpoint) : option float :=
+  match t with
+  | [] => None
+  | (q, v) :: r => if fpoint_eqb q p then Some v else table_lookup r p
+  end.
+
+Record gcase := {
+  gc_dim : nat;                                (* number of requested parameters *)
+  gc_table : list (fpoint * float);            (* the log density of the object on the stencils of all rows used *)
+  gc_calls : list gcall                        (* calls on one object: a matrix, its rows alone, other forms / stepsizes *)
+}.
+
+Definition agree_gcase (c : gcase) : bool := forallb (agree_gcall (table_lookup (gc_table c)) (gc_dim c)) (gc_calls c).
+Definition ok_gcase (c : gcase) : bool := forallb (ok_gcall (table_lookup (gc_table c)) (gc_dim c)) (gc_calls c).
+
+(** one correspondence case: a single evaluation with the augmented net introspected (wave 1), a
+    history of edits, objects and calls (wave 2), or gradient calls on one object (wave 3) *)
+Inductive tcase := Single (c : case) | History (h : list epoch) | Gradient (g : gcase).
 
 Definition agree_t (t : tcase) : bool :=
-  match t with Single c => agree c | History h => forallb agree_epoch h end.
+  match t with Single c => agree c | History h => forallb agree_epoch h | Gradient g => agree_gcase g end.
 
 Definition ok_t (t : tcase) : bool :=
-  match t with Single c => ok c | History h => forallb ok_epoch h end.
+  match t with Single c => ok c | History h => forallb ok_epoch h | Gradient g => ok_gcase g end.
